@@ -63,6 +63,23 @@ def plan(tier, seed):
     return specs
 
 
+class NotTextual(Exception):
+    pass
+
+
+def tolerant_fallback(dt, version):
+    """the textual object the library substitutes (TOLERANT) for an invalid value of a non-textual datatype"""
+    from hl7apy.factories import datatype_factory
+    from hl7apy.base_datatypes import TextualDataType
+
+    def make(x):
+        o = datatype_factory(dt, x, version, 2)
+        if not isinstance(o, TextualDataType):
+            raise NotTextual()
+        return o
+    return make
+
+
 def judge(cls, clsname, version, x, ec, letters, rec, log=None):
     """the four clauses on one (class, delimiter set, string)"""
     nontrivial = any(c in x for c in er7ref.delimiters(ec)) or ec['ESCAPE'] in x
@@ -70,6 +87,9 @@ def judge(cls, clsname, version, x, ec, letters, rec, log=None):
     case = {'kind': 'string', 'version': version, 'cls': clsname, 'ec': ec, 'value': x}
     try:
         y = cls(x).to_er7(ec)
+    except NotTextual:
+        rec.count('fallback_values_that_were_valid')
+        return
     except Exception as e:
         rec.violation('encode-raised:%s' % type(e).__name__, case, {'exc': repr(e)[:200]})
         return
@@ -143,6 +163,15 @@ def run_classes(spec, rec):
             for t in itertools.product(alpha, repeat=l):
                 judge(cls, name, v, ''.join(t), ec, letters, rec)
         rec.seen('classes', '%s %s' % (v, name))
+    # the textual leaf created for an invalid DT / DTM / TM / NM / SI value under TOLERANT is a textual leaf of this version
+    for dt in ('NM', 'SI', 'DT', 'DTM', 'TM'):
+        if dt not in tables.base_datatypes(v):
+            continue
+        cls = tolerant_fallback(dt, v)
+        for l in range(1, spec['L'] + 1):
+            for t in itertools.product(alpha, repeat=l):
+                judge(cls, 'fallback-for-' + dt, v, ''.join(t), ec, letters, rec)
+        rec.seen('classes', '%s fallback-for-%s' % (v, dt))
     drain(log, rec, v)
 
 
